@@ -25,6 +25,18 @@ def blob_of(x):
     return float(0.731 * x[0] + 1.37 * x[-1] + 0.0137 * np.sum(x * x) + 0.5)
 
 
+def blob_cast(b, dtype):
+    """What a likelihood returning a scalar blob of a narrower numeric type hands back for the tag `b` (None: plain float)."""
+    if not dtype:
+        return b
+    t = np.dtype(dtype)
+    return t.type(np.floor(b * 1000.0)) if t.kind in "iu" else t.type(b)
+
+
+def blob_expected(x, cfg):
+    return float(blob_cast(blob_of(x), (cfg or {}).get("blob_dtype")))
+
+
 def ll_gauss(x):
     x = np.asarray(x, dtype=float)
     return float(-0.5 * np.sum((x - 1.0) ** 2) / 4.0)
